@@ -60,7 +60,7 @@ def check_markers_safe(system: System) -> None:
                 raise HarnessError(f"harness placed markers of {b.kind} outside the supported interior (axis {ax}: {p[ax].min() / dx:.2f}..{p[ax].max() / dx:.2f} of {n_ax} cells)")
 
 
-def run_phase1(system: System, ops, store: str):
+def run_phase1(system: System, ops, store: str, same_process_k=None, workdir=None):
     traj = []
     dts = []
     for k, op in enumerate(ops):
@@ -69,7 +69,14 @@ def run_phase1(system: System, ops, store: str):
         dts.append(system.step(op))
         check_markers_safe(system)
     traj.append(system.observe())
-    return {"traj": traj, "dts": dts}
+    out = {"traj": traj, "dts": dts}
+    if same_process_k is not None:
+        # a restart in the very process that ran the uninterrupted run: fresh objects are
+        # constructed next to the old, stepped ones (module- or class-level caches filled by
+        # the old objects must not leak into the new ones)
+        fresh = System(system.config)
+        out["same_process"] = run_resume(fresh, ops, store, same_process_k, workdir)
+    return out
 
 
 def stage_checkpoint(store: str, dest: str, k: int, as_index: int | None = None, families=("sopht", "rod", "forcing", "store")) -> None:
@@ -138,7 +145,7 @@ class C18(Check):
     }
     required_probes = [
         "crash_with_nonzero_integral", "crash_with_live_velocity_mismatch", "dt_changed_across_checkpoint", "queries_dirtied_scratch",
-        "restart_in_new_process", "helper_stale_set", "helper_empty_dir", "helper_clock_skew", "helper_torn_set", "helper_five_digit_index",
+        "restart_in_new_process", "same_process_restart", "helper_stale_set", "helper_empty_dir", "helper_clock_skew", "helper_torn_set", "helper_five_digit_index",
     ]
     tiers = {
         "quick": {"runs": 128, "batch": 1, "timeout": 600},
@@ -229,6 +236,8 @@ class C18(Check):
         c["ops"] = ops
         c["helper"] = {"scenarios": scenarios, "sub": prng.sub_seed(rng)}
         c["fresh_interpreter"] = (rng.random() < (0.12 if tier == "quick" else 0.3))
+        c["same_process"] = True
+        c["same_process_k"] = rng.randrange(n)
         return c
 
     # ------------------------------------------------------------------ execute
@@ -258,7 +267,8 @@ class C18(Check):
                 return None
 
             try:
-                ph1 = in_fork(lambda: run_phase1(pristine, ops, store))
+                k_same = (program.get("same_process_k", 0) % n) if program.get("same_process", True) else None
+                ph1 = in_fork(lambda: run_phase1(pristine, ops, store, k_same, wd))
             except HarnessError as e:
                 if "outside the supported interior" in str(e) or "unable to broadcast" in str(e):
                     # the drawn program drives a body out of the region SophT supports (no boundary
@@ -291,6 +301,12 @@ class C18(Check):
                 n_cmp += nc_
                 res.add_sim("flow_steps", n - k)
                 res.log.state("resume", program["dim"], program["precision"], sig0["bodies"], k, n, [sorted(op["queries"]) for op in ops[k : k + 1]])
+            if "same_process" in ph1:
+                res.fault("restart_in_the_process_of_the_old_objects")
+                res.probe("same_process_restart")
+                nb_, nc_ = self._compare(res, traj, ph1["same_process"], k_same, eps, sig0, "same_process")
+                n_bit += nb_
+                n_cmp += nc_
             # ---------------- fresh interpreter for one k
             if program.get("fresh_interpreter") and n >= 2:
                 k = n // 2
@@ -528,7 +544,7 @@ class C18(Check):
                 del c["bodies"][i]
                 c["with_forcing"] = True
                 yield c
-        for key, val in (("filter", None), ("free_stream", None), ("zone", 0), ("poisson", "greens"), ("vort_amp", 0.0), ("fresh_interpreter", False)):
+        for key, val in (("filter", None), ("free_stream", None), ("zone", 0), ("poisson", "greens"), ("vort_amp", 0.0), ("fresh_interpreter", False), ("same_process", False)):
             if key in program and program[key] != val:
                 c = copy.deepcopy(program)
                 c[key] = val
